@@ -177,6 +177,47 @@ def run_harness(prop, tier, seed, work, replay):
     return rc == 0, out
 
 
+CROSS_PROCESS = {"C06", "C12", "C14"}
+
+
+def cross_process(prop, tier, seed, work, cases):
+    """Run the harness a second time in a fresh process into <work>_p2 and compare all case files.
+    Returns None when identical, else a replay object naming the first differing case."""
+    import shutil, filecmp
+    w2 = work + "_p2"
+    shutil.rmtree(w2, ignore_errors=True)
+    ok, log = run_harness(prop, tier, seed, w2, None)
+    try:
+        if not ok:
+            return {"kind": "property-checker-false", "checker": "cross_process", "property": prop,
+                    "what": "the second harness process failed", "log_tail": log[-2000:]}
+        names = sorted(n for n in os.listdir(work) if n.startswith("shard_") and n.endswith(".v")) + ["cases.jsonl"]
+        for n in names:
+            a, b = os.path.join(work, n), os.path.join(w2, n)
+            if os.path.exists(b) and filecmp.cmp(a, b, shallow=False):
+                continue
+            la = open(a, encoding="utf-8").read().split("\n")
+            lb = open(b, encoding="utf-8").read().split("\n") if os.path.exists(b) else []
+            j = next((i for i, (x, y) in enumerate(zip(la, lb)) if x != y), min(len(la), len(lb)))
+            idx = j
+            if n.startswith("shard_"):
+                k = int(re.search(r"shard_(\d+)\.v$", n).group(1))
+                m = re.match(r"Definition c(\d+) ", la[j] if j < len(la) else "")
+                idx = (int(m.group(1)) * NSHARDS + k) if m else 0
+            c = {}
+            try:
+                c = json.loads(cases[idx])
+            except Exception:
+                pass
+            return {"kind": "property-checker-false", "checker": "cross_process", "property": prop,
+                    "what": "two harness processes observed different outputs on the same inputs (seed %d)" % seed,
+                    "file": n, "line": j, "case_index": idx, "case": c, "input": c.get("input"),
+                    "first": (la[j] if j < len(la) else "")[:2000], "second": (lb[j] if j < len(lb) else "")[:2000]}
+        return None
+    finally:
+        shutil.rmtree(w2, ignore_errors=True)
+
+
 def compile_tier(prop, seed, work=None, replay=None):
     """Thorough tier of C01 / C02 / C18 (DESIGN.md 5.4): the harness writes a cargo project with the generated
     modules into a scratch directory outside /repo and /verif, builds it offline, runs the byte vectors and
@@ -298,6 +339,7 @@ def main():
     ok_h, hlog = build_harness()
     meta = {}
     tags = {}
+    cross_done = False
     cases = []
     shard_errors = []
     coqc_wall = 0.0
@@ -317,6 +359,15 @@ def main():
             meta = json.load(open(os.path.join(work, "meta.json")))
             cases = [l for l in open(os.path.join(work, "cases.jsonl"), encoding="utf-8")]
             shards = sorted(glob.glob(os.path.join(work, "shard_*.v")))
+            # determinism across processes (C06 "in another process", C12 / C14 "the same seed gives the same
+            # example"): a SECOND harness process (fresh std RandomState, fresh allocator state) must observe
+            # exactly the same outputs on the same inputs; every case file is compared byte for byte
+            if prop in CROSS_PROCESS and not replay:
+                cross = cross_process(prop, tier, seed, work, cases)
+                if cross is not None:
+                    p = write_replay("cross_process_%d" % cross.get("case_index", 0), cross)
+                    violations.append((p, ""))
+                cross_done = True
             tc = time.time()
             with ThreadPoolExecutor(max_workers=16) as ex:
                 results = list(ex.map(run_shard, shards))
@@ -460,6 +511,8 @@ def main():
             "streams": meta.get("streams", {}),
             "extra": meta.get("extra", {}),
             "known_findings_reported": sorted(seen),
+            "cross_process_determinism": ("all case files of a second harness process compared byte for byte"
+                                          if cross_done else "not part of this property's check"),
             "coqc_eval_wall_s": round(coqc_wall, 1),
         },
         "assumptions": ASSUMPTIONS_COMMON + ((ASSUMPTIONS_THOROUGH if ct is not None else ASSUMPTIONS).get(prop)
